@@ -44,6 +44,12 @@ pub fn atoms(l: L, core_only: bool) -> Vec<(String, bool)> {
             ("²".into(), false),
             ("1".into(), false),
             ("\t".into(), false),
+            ("\r\n".into(), false),
+            ("\u{2019}".into(), false),
+            ("\u{201c}".into(), false),
+            ("\u{ab}".into(), false),
+            ("\u{2026}".into(), false),
+            ("\u{2014}".into(), false),
         ]);
         match l {
             L::En => v.push(("o".into(), true)),
@@ -143,7 +149,7 @@ fn one_stream(ctx: &Ctx, acc: &mut Acc, l: L, lang: &text2num::Language, syms: &
     acc.states += 1;
     let h: Vec<HTok> = syms.iter().enumerate().map(|(i, w)| HTok::new(i, w)).collect();
     let n = h.len();
-    for &t in &[0.0, 10.0] {
+    for &t in &[0.0, 10.0, 1000.0] {
         acc.transitions += n as u64;
         acc.traces += 1;
         let Ok((occ, res)) = guard(|| (stream::find(&h, lang, t), replace_numbers_in_stream(h.clone(), lang, t))) else { continue };
